@@ -467,4 +467,83 @@ theorem optimizeUnion_opt_null {cfg : GenCfg} {e : EqEnv} {n : Nat} {us : List T
           rw [hmem t (by rw [he]; exact List.mem_cons_self ..)] at hy; cases hy
         · simp [Ty.isOpt] at hy
 
+/-! ### why a root field of `generate` is Optional -/
+
+theorem generate_opt_only_if_aux {cfg : GenCfg} {o : GenOracles} {samples : List Json} {fs : Fields}
+    (h : generate cfg o samples = .ok (.obj fs)) {k : String} {t : Ty} (hm : (k, t) ∈ fs)
+    (hopt : t.isOpt = true) :
+    (∃ kvs, Json.obj kvs ∈ samples ∧ k ∉ kvs.map (·.1)) ∨
+    (∃ kvs, Json.obj kvs ∈ samples ∧ (k, Json.null) ∈ kvs) := by
+  unfold generate at h
+  rw [Except.bind_ok_iff] at h
+  obtain ⟨sets, h1, h⟩ := h
+  rw [Except.bind_ok_iff] at h
+  obtain ⟨fields, h2, h⟩ := h
+  obtain ⟨n, fs', _, ht, _, hr⟩ := optimize_obj h
+  cases ht
+  obtain ⟨⟨k0, t0⟩, hm0, hk0, ho⟩ := forall₂_mem_right hr hm
+  simp only at hk0 ho
+  subst hk0
+  -- facts about the converted sets
+  have hsets : ∀ s ∈ sets, ∃ kvs, Json.obj kvs ∈ samples ∧ convertFields cfg o kvs = .ok s := by
+    intro s hs
+    obtain ⟨v, hv, hc⟩ := mapM_ok_mem h1 hs
+    obtain ⟨kvs, rfl, hcf⟩ := convert_ok hc
+    exact ⟨kvs, hv, hcf⟩
+  have hno : SetsNoOpt sets := by
+    intro s hs kv hkv
+    obtain ⟨kvs, _, hc⟩ := hsets s hs
+    exact (convertFields_raw hc kv hkv).2
+  have hnu : ∀ s ∈ sets, ∀ kv ∈ s, kv.2.isUnion = false := by
+    intro s hs kv hkv
+    obtain ⟨kvs, _, hc⟩ := hsets s hs
+    obtain ⟨a, _, _, hd⟩ := forall₂_mem_right (convertFields_ok hc) hkv
+    exact (detect_top hd).1
+  by_cases habs : AbsentIn sets k
+  · left
+    obtain ⟨s, hs, hk⟩ := habs
+    obtain ⟨kvs, hv, hc⟩ := hsets s hs
+    exact ⟨kvs, hv, by rw [← convertFields_keys hc]; exact hk⟩
+  · right
+    -- the merged type of `k` is not optional, opt-free and a flat union
+    have hnot : t0.isOpt = false := by
+      cases hh : t0.isOpt
+      · rfl
+      · exact absurd ((mergeFieldSets_opt_iff_of_optFree h2 hno.optFree hm0).1 hh) habs
+    have hnoOpt : t0.noOpt = true := noOptBelowTop_nonopt (mergeFieldSets_nobt h2 hno _ hm0) hnot
+    have hflat : ∀ m ∈ t0.unionMembers, m.isUnion = false := by
+      rcases mergeFieldSets_optOrFlat h2 hnu _ hm0 with h3 | h3
+      · rw [hnot] at h3; cases h3
+      · exact h3
+    -- so it must be a union with a `Null` member
+    have hnull : Ty.null ∈ flattenUnion t0.unionMembers := by
+      cases hu : t0.isUnion
+      · have := (optimize_nonunion_top ho hu).2.2 hopt
+        rw [hnot] at this; cases this
+      · cases t0 <;> simp [Ty.isUnion] at hu
+        rename_i us
+        cases n with
+        | zero => simp [optimize] at ho
+        | succ n =>
+          rw [optimize] at ho
+          simp only [Ty.unionMembers] at hflat ⊢
+          rw [flattenUnion_id hflat]
+          exact optimizeUnion_opt_null ho
+            (fun m hm => ⟨noOpt_union.1 hnoOpt m hm, hflat m hm⟩) hopt
+    -- provenance of that member
+    have hmemIn : MemIn .null t0 := by
+      rw [MemIn, stripOpt_of_noOpt hnoOpt]; exact hnull
+    obtain ⟨s, hs, u, hu, hmu⟩ :=
+      mergeFieldSets_member_provenance h2 hno hm0 hmemIn rfl (by simp)
+    obtain ⟨kvs, hv, hc⟩ := hsets s hs
+    obtain ⟨⟨k', x⟩, hkx, hk', hd⟩ := forall₂_mem_right (convertFields_ok hc) hu
+    simp only at hk' hd
+    subst hk'
+    have hunu := (detect_top hd).1
+    rw [unionMembers_of_nonunion hunu, flattenUnion_id (by simpa using hunu)] at hmu
+    have : u = .null := (List.mem_singleton.1 hmu).symm
+    have hx := (detect_top hd).2 this
+    subst hx
+    exact ⟨kvs, hv, hkx⟩
+
 end J2M
